@@ -72,7 +72,7 @@ class Check(AddCheck):
         # what is a duplicate / cannot be found is decided among the stories of roCreate and the items of the addressed
         # story: not among look-alike elements nested in payloads (decoys carry the IDs the messages insert), and the first
         # of two stories with one ID is the one that counts
-        yield from (c for c in gens.merge_cases_story(n_max=2, max_src=2, layouts=['decoys', 'dupstories']) if c['meta']['n'] >= 1)
+        yield from (c for c in gens.merge_cases_story(n_max=2, max_src=2, layouts=['decoys', 'dupstories', 'blankids', 'noids']) if c['meta']['n'] >= 1)
         yield from gens.merge_cases_padded()
         yield from gens.merge_cases_special_ids()
         for ro, doc, meta in kth_bad_cases():
